@@ -38,7 +38,7 @@ def same(a, b, exact=True):
 
 
 def check_zeroth(rep, algopy, rng, tier):
-    per_op = 4 if tier == 'quick' else 50
+    per_op = 9 if tier == "quick" else 60
     for nm, op in sorted(ops.ops_for(PID).items()):
         for _ in range(per_op):
             case = op.gen(rng, Dmax=4, Pmax=3)
